@@ -9,7 +9,8 @@
 //	    parameters, and a fixed family of ordinary typed closures)
 //	x directions (guest constants -> host parameters with the results compared INSIDE the guest; Go -> Call /
 //	    CallWithStack -> guest -> host and back (echo); host function calling back into the guest through a fresh
-//	    ExportedFunction in both calling forms; Go calling the re-exported host import directly)
+//	    ExportedFunction in both calling forms; Go calling the re-exported host import directly; the constant
+//	    form again below d recursive guest frames, d swept across the depths where the native stack must grow)
 //	x value rotations (every position sees every boundary value of its type, plus two position-tagged rotations)
 //	x both engines.
 //
